@@ -324,3 +324,287 @@ Proof.
     right. split; [reflexivity | exists t; split; [reflexivity | exact E]].
   - intros H; injection H as <-. left. split; reflexivity.
 Qed.
+
+(* ------------------------------------------------------------------------------------------ *)
+(** * B. Vocabulary of Props/C04.v *)
+
+(* a body that the expansion pass leaves alone: not "nop", not li / mv, and no variable operand
+   on a load / store / la (an "la" WITHOUT variable operand stays and is rejected later) *)
+Definition plain_body (b : tbody) : Prop :=
+  match b with
+  | BStr k => k <> 2
+  | BIns i => k_mn i <> MN_LI /\ k_mn i <> MN_MV /\
+              ((is_load_mn (k_mn i) || (k_mn i =? MN_LA) || is_store_mn (k_mn i)) = true ->
+               k_var i = None)
+  | BOther => True
+  end.
+Definition plain_entry (e : Z * tentry) : Prop :=
+  match snd e with EBody b => plain_body b | ELabel _ => True end.
+
+(* what one entry of the text contributes to the expanded text *)
+Definition entry_expansion (vars : vartab) (e : Z * tentry) (out : list (Z * tentry)) : Prop :=
+  match snd e with
+  | ELabel _ => out = [e]
+  | EBody b => exists bs, expand_one vars (fst e) b = POk bs /\
+                          out = map (fun b' => (fst e, EBody b')) bs
+  end.
+
+(* number of instruction entries *)
+Fixpoint ninsn (l : list (Z * tentry)) : nat :=
+  match l with
+  | [] => O
+  | (_, EBody b) :: t => ((if body_is_instruction b then 1 else 0) + ninsn t)%nat
+  | _ :: t => ninsn t
+  end.
+
+(* the entries of one source line are adjacent: a line number that occurs again later occurs
+   again immediately *)
+Fixpoint grouped (text : list (Z * tentry)) : Prop :=
+  match text with
+  | [] => True
+  | (ln, _) :: t =>
+      (In ln (map fst t) -> match t with (ln', _) :: _ => ln' = ln | [] => False end) /\ grouped t
+  end.
+
+(* entry (ln, e), preceded by the entries pre, declares label [name]: a stand-alone label, or
+   the FIRST entry of a source line that carries the in-line label [name] *)
+Definition declares (inl : zmap) (pre : list (Z * tentry)) (ln : Z) (e : tentry) (name : Z) : Prop :=
+  e = ELabel name \/
+  (exists b, e = EBody b /\ mget_opt inl ln = Some name /\ ~ In ln (map fst pre)).
+
+(* a token field that holds a register / an integer literal *)
+Definition reg_field (r : option regtok) (n : Z) : Prop := exists t, r = Some t /\ reg_num t = Some n.
+Definition int_field (s : option str) (z : Z) : Prop := exists t, s = Some t /\ py_int0 t = Some z.
+(* the optional hexadecimal offset of a label operand *)
+Definition offset_value (i : itok) (o : Z) : Prop :=
+  match k_offset i with Some s => py_int0 s = Some o | None => o = 0 end.
+
+(* ------------------------------------------------------------------------------------------ *)
+(** * B.1 Expansion *)
+
+Lemma expand_one_bstr vars ln k : k <> 2 -> expand_one vars ln (BStr k) = POk [BStr k].
+Proof.
+  intros Hk. destruct k as [|p|p]; try reflexivity.
+  do 2 (destruct p as [p|p|]; try reflexivity). exfalso; apply Hk; reflexivity.
+Qed.
+
+Lemma expand_one_plain_id vars ln b : plain_body b -> expand_one vars ln b = POk [b].
+Proof.
+  destruct b as [k|i|]; cbn [plain_body].
+  - apply expand_one_bstr.
+  - intros (H1 & H2 & H3). unfold MN_LI, MN_MV, MN_LA in *. unfold expand_one; cbv zeta.
+    unfold MN_LI, MN_MV, MN_LA.
+    replace (k_mn i =? 54) with false by lia. replace (k_mn i =? 56) with false by lia.
+    destruct (is_load_mn (k_mn i) || (k_mn i =? 55)) eqn:E1.
+    + rewrite H3 by reflexivity. reflexivity.
+    + destruct (is_store_mn (k_mn i)) eqn:E2; [|reflexivity].
+      rewrite H3 by reflexivity. reflexivity.
+  - intros _. reflexivity.
+Qed.
+
+Lemma plain_tok_rri mn r1 r2 s : mn <> 54 -> mn <> 56 -> plain_body (BIns (tok_rri mn r1 r2 s)).
+Proof. intros H1 H2. cbn [plain_body tok_rri k_mn k_var]. unfold MN_LI, MN_MV. repeat split; assumption. Qed.
+Lemma plain_tok_u mn r s : mn <> 54 -> mn <> 56 -> plain_body (BIns (tok_u mn r s)).
+Proof. intros H1 H2. cbn [plain_body tok_u k_mn k_var]. unfold MN_LI, MN_MV. repeat split; assumption. Qed.
+
+Lemma is_load_mn_range m : is_load_mn m = true -> 27 <= m <= 32.
+Proof. unfold is_load_mn. lia. Qed.
+Lemma is_store_mn_range m : is_store_mn m = true -> 34 <= m <= 36.
+Proof. unfold is_store_mn. lia. Qed.
+
+Definition len123 (n : nat) : Prop := n = 1%nat \/ n = 2%nat \/ n = 3%nat.
+
+Lemma expand_one_out vars ln b bs : expand_one vars ln b = POk bs ->
+  Forall plain_body bs /\ len123 (length bs).
+Proof.
+  unfold len123. destruct b as [k|i|].
+  - destruct (Z.eq_dec k 2) as [->|Hk].
+    + cbn [expand_one]. intros H; injection H as <-. split; [|left; reflexivity].
+      constructor; [|constructor]. apply plain_tok_rri; unfold MN_ADDI; lia.
+    + rewrite expand_one_bstr by exact Hk. intros H; injection H as <-.
+      split; [|left; reflexivity]. constructor; [exact Hk | constructor].
+  - unfold expand_one; cbv zeta. unfold MN_LI, MN_MV, MN_LA, MN_LUI, MN_ADDI.
+    destruct (k_mn i =? 54) eqn:Eli.
+    { destruct (k_rd i) as [rd|]; [|discriminate]. destruct (k_imm i) as [s|]; [|discriminate].
+      destruct (py_int0 s) as [imm|]; [|discriminate]. destruct (hi_lo imm) as [hi lo].
+      destruct ((imm >? 2047) || (imm <? -2048)); intros H; injection H as <-.
+      - split; [|right; left; reflexivity].
+        repeat constructor; try (apply plain_tok_u; lia); try (apply plain_tok_rri; lia).
+      - split; [|left; reflexivity]. repeat constructor; apply plain_tok_rri; lia. }
+    destruct (is_load_mn (k_mn i) || (k_mn i =? 55)) eqn:E1.
+    { destruct (k_var i) as [v|] eqn:Ev.
+      - destruct (var_address vars v ln) as [av|]; [|discriminate].
+        destruct (k_reg1 i) as [r|]; [|discriminate]. destruct (hi_lo av) as [hi lo].
+        destruct (is_load_mn (k_mn i)) eqn:El; intros H; injection H as <-.
+        + apply is_load_mn_range in El. split; [|right; right; reflexivity].
+          cbn [app]. repeat constructor; try (apply plain_tok_u; lia); try (apply plain_tok_rri; lia).
+        + split; [|right; left; reflexivity].
+          repeat constructor; try (apply plain_tok_u; lia); try (apply plain_tok_rri; lia).
+      - intros H; injection H as <-. split; [|left; reflexivity]. constructor; [|constructor].
+        cbn [plain_body]. unfold MN_LI, MN_MV, MN_LA. split; [lia|]. split; [|intros _; exact Ev].
+        assert (27 <= k_mn i <= 32 \/ k_mn i = 55) by (unfold is_load_mn in E1; lia). lia. }
+    destruct (is_store_mn (k_mn i)) eqn:E2.
+    { pose proof (is_store_mn_range _ E2) as Hr. destruct (k_var i) as [v|] eqn:Ev.
+      - destruct (var_address vars v ln) as [av|]; [|discriminate].
+        destruct (k_reg1 i) as [r|]; [|discriminate]. destruct (k_reg2 i) as [rt|]; [|discriminate].
+        destruct (hi_lo av) as [hi lo]. intros H; injection H as <-.
+        split; [|right; right; reflexivity].
+        repeat constructor; try (apply plain_tok_u; lia); try (apply plain_tok_rri; lia).
+      - intros H; injection H as <-. split; [|left; reflexivity]. constructor; [|constructor].
+        cbn [plain_body]. unfold MN_LI, MN_MV, MN_LA. split; [lia|]. split; [lia|intros _; exact Ev]. }
+    destruct (k_mn i =? 56) eqn:Emv.
+    { destruct (k_rd i) as [rd|]; [|discriminate]. destruct (k_rs i) as [rs|]; [|discriminate].
+      intros H; injection H as <-. split; [|left; reflexivity].
+      repeat constructor; apply plain_tok_rri; lia. }
+    intros H; injection H as <-. split; [|left; reflexivity]. constructor; [|constructor].
+    cbn [plain_body]. unfold MN_LI, MN_MV, MN_LA. split; [lia|]. split; [lia|].
+    intros Hc. rewrite E1, E2 in Hc. discriminate Hc.
+  - cbn [expand_one]. intros H; injection H as <-. split; [|left; reflexivity].
+    constructor; [exact Logic.I | constructor].
+Qed.
+
+(* the line number only appears inside error values *)
+Lemma var_address_ln vars v ln ln' a : var_address vars v ln = POk a -> var_address vars v ln' = POk a.
+Proof.
+  unfold var_address. destruct (var_lookup vars (fst v)) as [[a0 sz]|]; [|discriminate].
+  destruct (snd v) as [d|]; [|exact (fun H => H)].
+  destruct (py_int10 d); [exact (fun H => H) | discriminate].
+Qed.
+
+Lemma expand_one_ln vars ln ln' b bs : expand_one vars ln b = POk bs -> expand_one vars ln' b = POk bs.
+Proof.
+  destruct b as [k|i|]; [exact (fun H => H) | | exact (fun H => H)].
+  unfold expand_one; cbv zeta.
+  destruct (k_mn i =? MN_LI).
+  { destruct (k_rd i); [|discriminate]. destruct (k_imm i) as [s|]; [|discriminate].
+    destruct (py_int0 s); [exact (fun H => H) | discriminate]. }
+  destruct (is_load_mn (k_mn i) || (k_mn i =? MN_LA)).
+  { destruct (k_var i) as [v|]; [|exact (fun H => H)].
+    destruct (var_address vars v ln) as [av|] eqn:Ea; [|discriminate].
+    rewrite (var_address_ln _ _ _ ln' _ Ea). destruct (k_reg1 i); [exact (fun H => H) | discriminate]. }
+  destruct (is_store_mn (k_mn i)).
+  { destruct (k_var i) as [v|]; [|exact (fun H => H)].
+    destruct (var_address vars v ln) as [av|] eqn:Ea; [|discriminate].
+    rewrite (var_address_ln _ _ _ ln' _ Ea).
+    destruct (k_reg1 i); [|discriminate]. destruct (k_reg2 i); [exact (fun H => H) | discriminate]. }
+  destruct (k_mn i =? MN_MV); [|exact (fun H => H)].
+  destruct (k_rd i); [|discriminate]. destruct (k_rs i); [exact (fun H => H) | discriminate].
+Qed.
+
+Lemma expand_all_local vars text : forall text', expand_all vars text = POk text' ->
+  exists outs, Forall2 (entry_expansion vars) text outs /\ text' = concat outs.
+Proof.
+  induction text as [|[ln e] t IH]; intros text' H; cbn [expand_all] in H.
+  - injection H as <-. exists []. split; [constructor | reflexivity].
+  - destruct e as [n|b].
+    + destruct (expand_all vars t) as [r|] eqn:Er; [|discriminate]. injection H as <-.
+      destruct (IH r eq_refl) as (outs & HF & ->).
+      exists ([(ln, ELabel n)] :: outs). split; [|reflexivity].
+      constructor; [reflexivity | exact HF].
+    + destruct (expand_one vars ln b) as [bs|] eqn:Eb; [|discriminate].
+      destruct (expand_all vars t) as [r|] eqn:Er; [|discriminate]. injection H as <-.
+      destruct (IH r eq_refl) as (outs & HF & ->).
+      exists (map (fun b' => (ln, EBody b')) bs :: outs). split; [|reflexivity].
+      constructor; [|exact HF]. unfold entry_expansion; cbn [fst snd]. exists bs. split; [exact Eb | reflexivity].
+Qed.
+
+Lemma expand_all_local_conv vars text : forall outs, Forall2 (entry_expansion vars) text outs ->
+  expand_all vars text = POk (concat outs).
+Proof.
+  induction text as [|[ln e] t IH]; intros outs HF; inversion HF as [|x y l l' Hxy Hl]; subst.
+  - reflexivity.
+  - cbn [expand_all concat]. rewrite (IH _ Hl). unfold entry_expansion in Hxy; cbn [fst snd] in Hxy.
+    destruct e as [n|b].
+    + subst y. reflexivity.
+    + destruct Hxy as (bs & -> & ->). reflexivity.
+Qed.
+
+Lemma expand_all_plain_id vars text : Forall plain_entry text -> expand_all vars text = POk text.
+Proof.
+  induction 1 as [|[ln e] t He Ht IH]; [reflexivity|]. cbn [expand_all]. rewrite IH.
+  destruct e as [n|b]; [reflexivity|]. unfold plain_entry in He; cbn [snd] in He.
+  rewrite (expand_one_plain_id vars ln b He). reflexivity.
+Qed.
+
+Lemma expand_all_plain vars text : forall text', expand_all vars text = POk text' -> Forall plain_entry text'.
+Proof.
+  induction text as [|[ln e] t IH]; intros text' H; cbn [expand_all] in H.
+  - injection H as <-. constructor.
+  - destruct e as [n|b].
+    + destruct (expand_all vars t) as [r|] eqn:Er; [|discriminate]. injection H as <-.
+      constructor; [exact Logic.I | apply IH; reflexivity].
+    + destruct (expand_one vars ln b) as [bs|] eqn:Eb; [|discriminate].
+      destruct (expand_all vars t) as [r|] eqn:Er; [|discriminate]. injection H as <-.
+      apply Forall_app. split; [|apply IH; reflexivity].
+      destruct (expand_one_out _ _ _ _ Eb) as [Hp _].
+      apply Forall_forall. intros x Hx. apply in_map_iff in Hx as (b' & <- & Hb').
+      rewrite Forall_forall in Hp. exact (Hp b' Hb').
+Qed.
+
+Lemma expand_all_lines vars text : forall text', expand_all vars text = POk text' ->
+  forall ln, In ln (map fst text') -> In ln (map fst text).
+Proof.
+  induction text as [|[l e] t IH]; intros text' H ln Hin; cbn [expand_all] in H.
+  - injection H as <-. exact Hin.
+  - destruct e as [n|b].
+    + destruct (expand_all vars t) as [r|] eqn:Er; [|discriminate]. injection H as <-.
+      cbn [map fst In] in *. destruct Hin as [Hin|Hin]; [left; exact Hin | right; eapply IH; eauto].
+    + destruct (expand_one vars l b) as [bs|] eqn:Eb; [|discriminate].
+      destruct (expand_all vars t) as [r|] eqn:Er; [|discriminate]. injection H as <-.
+      rewrite map_app, in_app_iff in Hin. cbn [map fst In]. destruct Hin as [Hin|Hin].
+      * left. rewrite map_map in Hin. cbn [fst] in Hin. apply in_map_iff in Hin as (x & Hx & _). exact Hx.
+      * right. eapply IH; eauto.
+Qed.
+
+Lemma grouped_block {A} (f : A -> tentry) ln (bs : list A) r :
+  grouped r -> ~ In ln (map fst r) -> grouped (map (fun x => (ln, f x)) bs ++ r).
+Proof.
+  intros Hr Hn. induction bs as [|b bs IH]; [exact Hr|].
+  cbn [map app grouped]. split; [|exact IH].
+  intros Hin. destruct bs as [|b' bs']; cbn [map app] in *.
+  - exfalso. exact (Hn Hin).
+  - reflexivity.
+Qed.
+
+Lemma expand_all_grouped vars text : forall text', NoDup (map fst text) ->
+  expand_all vars text = POk text' -> grouped text'.
+Proof.
+  induction text as [|[l e] t IH]; intros text' Hnd H; cbn [expand_all] in H.
+  - injection H as <-. exact Logic.I.
+  - cbn [map fst] in Hnd. inversion Hnd as [|x y Hx Hy]; subst.
+    destruct e as [n|b].
+    + destruct (expand_all vars t) as [r|] eqn:Er; [|discriminate]. injection H as <-.
+      apply (grouped_block (fun _ : unit => ELabel n) l [tt] r).
+      * apply IH; [exact Hy | reflexivity].
+      * intros Hin. apply Hx. eapply expand_all_lines; eauto.
+    + destruct (expand_one vars l b) as [bs|] eqn:Eb; [|discriminate].
+      destruct (expand_all vars t) as [r|] eqn:Er; [|discriminate]. injection H as <-.
+      apply (grouped_block EBody l bs r).
+      * apply IH; [exact Hy | reflexivity].
+      * intros Hin. apply Hx. eapply expand_all_lines; eauto.
+Qed.
+
+(* the three statements of Props/C04.v *)
+Lemma expand_local_lem : forall vars text text', expand_all vars text = POk text' ->
+  (exists outs, Forall2 (entry_expansion vars) text outs /\ text' = concat outs) /\
+  Forall plain_entry text' /\
+  (forall vars', expand_all vars' text' = POk text') /\
+  (forall ln, In ln (map fst text') -> In ln (map fst text)) /\
+  (NoDup (map fst text) -> grouped text').
+Proof.
+  intros vars text text' H. split; [apply expand_all_local; exact H|].
+  pose proof (expand_all_plain _ _ _ H) as Hp. split; [exact Hp|].
+  split; [intros vars'; apply expand_all_plain_id; exact Hp|].
+  split; [apply (expand_all_lines _ _ _ H)|]. intros Hnd. eapply expand_all_grouped; eauto.
+Qed.
+
+Lemma expand_one_facts_lem : forall vars ln b bs, expand_one vars ln b = POk bs ->
+  (forall ln', expand_one vars ln' b = POk bs) /\
+  Forall plain_body bs /\
+  (forall vars' ln' b', In b' bs -> expand_one vars' ln' b' = POk [b']) /\
+  (length bs = 1 \/ length bs = 2 \/ length bs = 3)%nat.
+Proof.
+  intros vars ln b bs H. destruct (expand_one_out _ _ _ _ H) as [Hp Hl].
+  split; [intros ln'; eapply expand_one_ln; exact H|]. split; [exact Hp|]. split; [|exact Hl].
+  intros vars' ln' b' Hb. apply expand_one_plain_id. rewrite Forall_forall in Hp. apply Hp, Hb.
+Qed.
